@@ -331,6 +331,250 @@ def ws_session(report, backend, rng, keys, tag):
         relay.close()
 
 
+# ------------------------------------------------------------------------------------------------------------
+# Validation that is slow or starved.
+# The validator chain does not run on the event loop: get_validator hands it to the loop's default executor, a finite pool that
+# the relay shares with everything else that is pushed off the loop.  How long a verdict takes is therefore not in the relay's
+# hands.  C03 does not say "a forged event is refused when the verdict arrives in time", it says a forged event is never
+# acknowledged, stored or forwarded: so the check also looks at the time in which NO verdict is available.
+#
+# How long validation is starved, in seconds of the loop's clock (the harness advances the clock; nobody waits), in how many steps
+# (after every step the loop runs, so a deadline that is re-armed per message — a connection handles its EVENTs one after the other —
+# falls due once per step).  Not tuned to any option of the relay: the total is most of the shipped idle timeout of a connection
+# (message_timeout 1800 s; lib.proto starts the handlers with 3600 s), beyond which the relay may rightly drop the connection, and any
+# bound on "how long may an EVENT wait for X" that is meant to act while the client is still there is (much) shorter than one step.
+STARVED_STEPS = 5
+STARVED_STEP_S = 300.0
+
+
+class _LoopClock:
+    """the clock of one relay's event loop plus an offset the harness advances (as props/c19.py does for slow consumers): every
+    deadline measured with the loop (call_later / call_at, hence asyncio.wait, wait_for, timeout) that lies in the interval is due
+    the next time the loop runs.  Time only moves forward; the loop goes with its Relay."""
+
+    def __init__(self, loop):
+        real = loop.time
+        self.offset = 0.0
+        loop.time = lambda: real() + self.offset
+
+    def advance(self, seconds):
+        self.offset += seconds
+
+
+def _pump(relay, until=None, quiet_rounds=25, idle_s=8.0, cap_s=60.0):
+    """run the relay's loop.  Without `until`: until no connection has produced or consumed anything for quiet_rounds rounds (there is
+    nothing to wait *for* while validation is starved: whatever happens then happens at once).  With `until`: until it holds; gives up
+    (False) only when nothing has moved for idle_s of real time although it does not hold."""
+    import time as _time
+    from lib.proto import _real_sleep
+
+    def moved():
+        return tuple((len(c.out), c.inbox.qsize(), c.done) for c in relay.conns)
+
+    async def go():
+        t0 = t_last = _time.monotonic()
+        last, still = moved(), 0
+        while True:
+            await _real_sleep(0.002)
+            now, cur = _time.monotonic(), moved()
+            if cur != last:
+                last, t_last, still = cur, now, 0
+            else:
+                still += 1
+            if until is None:
+                if still >= quiet_rounds or now - t0 > cap_s:
+                    return True
+            elif until():
+                return True
+            elif now - t_last > idle_s or now - t0 > cap_s:
+                return False
+
+    ok = relay.run(go())
+    if relay.backend == "kv":
+        relay.store.quiesce()       # the LMDB writer (run by the harness, lib.hist) writes what add_event has queued
+        if until is None:
+            relay.run(go())
+    return ok
+
+
+def starved_plan(rng, keys, tier):
+    """which connections send which events while no verdict can be had, and which ones afterwards: plain data (the replay payload)"""
+    used = set()
+
+    def fresh(m):
+        while True:
+            ev = mutate(rng, keys, m)
+            if ev.get("id") not in used:        # one id, one event: `stored` and `pushed` are decided by id
+                used.add(ev.get("id"))
+                return {"mutation": m, "event": ev}
+
+    conns = []
+    for i in range(rng.randint(3, 4) if tier == "quick" else rng.randint(3, 8)):
+        k = rng.choice([1, 1, 2, 3])
+        ms = [rng.choice(MUTATIONS) for _ in range(k)]
+        if i == 0:
+            ms[0] = rng.choice([m for m in MUTATIONS if m not in ("none", "deleg-valid", "service-genuine")])
+        if i == 1:
+            ms[0] = "none"
+        conns.append([fresh(m) for m in ms])
+    last = fresh("none")
+    while last["event"]["kind"] not in (1, 7):      # a regular event: nothing a relay may rightly answer but "accepted"
+        last = fresh("none")
+    after = [fresh(rng.choice([m for m in MUTATIONS if m != "none"])), last]
+    return {"during": conns, "after": after, "steps": STARVED_STEPS, "step_s": STARVED_STEP_S}
+
+
+def starved_validation(report, backend, plan, tag):
+    """Validation starved.  Every worker of the executor the validator chain runs in is kept busy (jobs that wait for the harness),
+    so the chain of an EVENT that arrives now is queued behind them; meanwhile clients submit forged and genuine events through the
+    real start_client, several connections, one to three EVENTs each, and STARVED_STEPS x STARVED_STEP_S seconds of the loop's clock
+    pass.  Then the workers are released, the relay comes to rest, and one more forged and one more genuine event are sent.
+    What the relay does about an EVENT it cannot get a verdict for — wait, refuse it with a reason, close the connection — is its
+    business.  What must hold, whatever happens in between:
+      * safety: an event that is not authentic (independent hashlib + coincurve computation) is never answered with OK true, never in
+        the store, never pushed to a subscriber, and whatever is pushed or served is authentic as it arrives;
+      * an answer: once verdicts can be had again, every EVENT on a connection the relay has not closed has its OK (the k-th OK of a
+        connection answers its k-th EVENT: the handler is sequential), an OK false carries a reason, and a genuine event sent to the
+        recovered relay is accepted."""
+    import asyncio
+    import threading
+    from concurrent.futures import ThreadPoolExecutor
+    from lib.proto import Relay, Conn
+
+    relay = Relay(backend)
+    # the loop's default executor, constructed the way asyncio constructs it (default size), but held by the harness so that its
+    # threads can be dismissed with the scenario
+    pool = ThreadPoolExecutor(thread_name_prefix="verif-c03-default")
+    relay.loop.set_default_executor(pool)
+    clock = _LoopClock(relay.loop)
+    release = threading.Event()
+    payload = {"kind": "starved", "backend": backend, "plan": plan}
+    kinds = [1, 7, 30000, 31494]
+
+    def fail(what):
+        report.property_failure("%s, validation starved: %s" % (backend, what), copy.deepcopy(payload), None)
+
+    def oks(c, n0=0):
+        return [f for f in c.frames(n0) if isinstance(f, list) and f and f[0] == "OK"]
+
+    try:
+        obs = Conn(relay, remote_addr="9.9.9.9")
+        obs.send(["REQ", "watch", {"kinds": kinds}])
+        senders = [Conn(relay, remote_addr="10.0.0.%d" % (i + 1)) for i in range(len(plan["during"]))]
+
+        # -- every worker busy: jobs are submitted until some of them are left waiting in the executor's queue
+        started, jobs = [], []
+
+        def busy():
+            started.append(1)
+            release.wait(300)      # real seconds; only reached if the harness itself dies in between
+
+        async def saturate():
+            from lib.proto import _real_sleep
+
+            while len(jobs) < 2000:
+                jobs.extend(relay.loop.run_in_executor(None, busy) for _ in range(40))
+                last, still = -1, 0
+                while still < 25:
+                    await _real_sleep(0.002)
+                    still = still + 1 if len(started) == last else 0
+                    last = len(started)
+                if len(started) < len(jobs):
+                    return True
+            return False
+
+        if not relay.run(saturate()):
+            report.count("starved_not_saturated_" + backend)
+        report.count("starved_workers_kept_busy", len(started))
+
+        # -- the events arrive; time passes
+        sent = []          # (connection, position on it, step)
+        for c, steps in zip(senders, plan["during"]):
+            for k, st in enumerate(steps):
+                c.send(["EVENT", st["event"]], settle=False)
+                sent.append((c, k, st))
+        _pump(relay)
+        for _ in range(plan["steps"]):
+            clock.advance(plan["step_s"])
+            _pump(relay)
+        early = sum(len(oks(c)) for c in senders)
+        report.count("starved_answers_before_release_" + backend, early)
+
+        # -- verdicts can be had again
+        release.set()
+        relay.run(asyncio.gather(*jobs, return_exceptions=True))
+        answered = _pump(relay, until=lambda: all(c.done or (len(oks(c)) >= len(steps) and c.idle)
+                                                  for c, steps in zip(senders, plan["during"])))
+        relay.settle()
+
+        # -- the recovered relay
+        late = Conn(relay, remote_addr="10.0.1.1")
+        for st in plan["after"]:
+            late.send(["EVENT", st["event"]], settle=False)
+        answered = _pump(relay, until=lambda: late.done or (len(oks(late)) >= len(plan["after"]) and late.idle)) and answered
+        relay.settle()
+
+        # -- safety
+        store_ids = relay.store.ids()
+        pushed_ids = set()
+        for f in obs.frames():
+            if isinstance(f, list) and f and f[0] == "EVENT" and len(f) > 2 and isinstance(f[2], dict):
+                pushed_ids.add(f[2].get("id"))
+                if not authentic(facts_of(f[2])):
+                    fail("the event pushed to a subscriber is not authentic as it arrives: %r" % (f[2],))
+                report.count("pushed_frames_verified_" + backend)
+        everything = [(c, k, st) for c, k, st in sent] + [(late, k, st) for k, st in enumerate(plan["after"])]
+        for c, k, st in everything:
+            ev, m = st["event"], st["mutation"]
+            good = authentic(facts_of(ev))
+            mine = oks(c)
+            when = "sent while validation was starved" if c is not late else "sent after validation was available again"
+            if not good:
+                ack = [f for i, f in enumerate(mine) if len(f) >= 3 and f[2] is True and (i == k or f[1] == ev.get("id"))]
+                if ack:
+                    fail("a non-authentic event (%s, %s; EVENT no. %d of its connection) was acknowledged with OK true: %r"
+                         % (m, when, k + 1, ack[0][:4]))
+                if isinstance(ev.get("id"), str) and ev["id"] in store_ids:
+                    fail("a non-authentic event (%s, %s) is in the store" % (m, when))
+                if ev.get("id") in pushed_ids:
+                    fail("a non-authentic event (%s, %s) was pushed to a subscriber" % (m, when))
+            # -- an answer
+            if not c.done:
+                if k >= len(mine):
+                    fail("an EVENT (%s, %s; no. %d of its connection) has no OK although the connection is open and validation is "
+                         "available again (%d OK frames for %d EVENTs; at rest: %s)" % (m, when, k + 1, len(mine), k + 1, answered))
+                elif len(mine[k]) < 4 or (mine[k][2] is not True and not (isinstance(mine[k][3], str) and mine[k][3])):
+                    fail("the OK for an EVENT (%s, %s) is neither true nor a refusal with a reason: %r" % (m, when, mine[k]))
+                elif good:
+                    report.count("starved_genuine_%s_%s" % ("accepted" if mine[k][2] is True else "refused_with_reason", backend))
+            report.count("starved_events_" + backend)
+            report.count("starved_events_%s" % ("genuine" if good else "non_authentic"))
+        st = plan["after"][-1]
+        if not late.done and authentic(facts_of(st["event"])):
+            got = oks(late)[len(plan["after"]) - 1:]
+            if not (got and got[0][2] is True and st["event"]["id"] in store_ids):
+                fail("a genuine event sent after validation was available again was not accepted (in the store: %s): %r"
+                     % (st["event"]["id"] in store_ids, got[:1]))
+        # and whatever the relay serves afterwards from its store
+        reader = Conn(relay, remote_addr="10.0.2.1")
+        reader.send(["REQ", "all", {"kinds": kinds}])
+        for f in reader.frames():
+            if isinstance(f, list) and f and f[0] == "EVENT" and len(f) > 2 and isinstance(f[2], dict):
+                if not authentic(facts_of(f[2])):
+                    fail("an event that is not authentic is served from the store: %r" % (f[2],))
+                report.count("served_frames_verified_" + backend)
+        report.case(("starved", backend, tag, repr([[s["mutation"] for s in steps] for steps in plan["during"]])), nontrivial=True,
+                    sample={"backend": backend, "validation_starved_for_s": plan["steps"] * plan["step_s"],
+                            "connections": [[s["mutation"] for s in steps] for steps in plan["during"]]})
+        report.count("starved_sessions_" + backend)
+    finally:
+        release.set()
+        try:
+            relay.close()
+        finally:
+            pool.shutdown(wait=False)
+
+
 def run(report, tier, seed):
     rng = random.Random(seed)
     drv = common.Driver()
@@ -347,7 +591,11 @@ def run(report, tier, seed):
         "a role assignment), content/created_at/kind/tags changed after signing, string created_at, NIP-26 delegation valid/forged/"
         "transplanted/3-item/5-item/bad-hex/conditions-changed, resubmission with a zeroed signature (also after the "
         "genuine event was deleted); both backends; sessions of 5-15 such events, genuine ones in between, on one connection "
-        "through the real start_client (every OK frame, push and the store are checked); non-trivial = a mutated event" % (len(set(MUTATIONS)) - 1))
+        "through the real start_client (every OK frame, push and the store are checked); validation starved: every worker of the "
+        "loop's default executor kept busy while 3-8 connections submit 1-3 such events each and %d s of the loop's clock pass "
+        "(%d steps), then released, then one more forged and one more genuine event (no OK true / store / push for a non-authentic "
+        "event at any time, every EVENT answered in the end); non-trivial = a mutated event"
+        % (len(set(MUTATIONS)) - 1, STARVED_STEPS * STARVED_STEP_S, STARVED_STEPS))
     report.assumptions += ["SHA-256 (hashlib) and BIP-340 (coincurve) are trusted; the NIP-01 serialisation is the "
                            "relay's own (rapidjson, ensure_ascii=False)"]
     try:
@@ -363,6 +611,9 @@ def run(report, tier, seed):
     for i in range(3 if tier == "quick" else 60):
         for backend in ("sql", "kv"):
             ws_session(report, backend, rng, keys, i)
+    for i in range(3 if tier == "quick" else 12):
+        for backend in ("sql", "kv"):
+            starved_validation(report, backend, starved_plan(rng, keys, tier), i)
 
 
 def replay(report, path):
@@ -375,6 +626,9 @@ def replay(report, path):
     try:
         for it in (data.get("violations") or []) + (data.get("correspondence_breaks") or []):
             r = it.get("replay") or it.get("input")
+            if r.get("kind") == "starved":
+                starved_validation(report, r["backend"], r["plan"], "replay")
+                continue
             if r.get("kind") == "ws":
                 from lib.proto import Relay, Conn
 
